@@ -599,3 +599,22 @@ func goDeOrderTlv(bid bool, raw []byte) (exp string) {
 	}
 	return "ok " + renderOrder(o)
 }
+
+// orderFixed replays one order through a fresh database.
+func (c *c10Run) orderFixed(spec *c10Order) {
+	r := c.r
+	c.nDB++
+	path := fmt.Sprintf("%s/f%d", c.dir, c.nDB)
+	db := c.openDB(path)
+	defer db.Close()
+	if err := db.SubmitOrder(spec.build()); err != nil {
+		return
+	}
+	y, err := db.GetOrder(order.Nonce(arr32(spec.Nonce)))
+	r.Evaluations++
+	if err != nil || renderOrder(y) != renderOrder(spec.build()) {
+		r.Count("oracle/violation")
+		r.Violate("order does not read back equal through the database", "C10/order-db-roundtrip",
+			c10Case{Kind: "order", Order: spec})
+	}
+}
